@@ -504,47 +504,61 @@ theorem mapErrInvalid_error (p : Prog β) (d : Bytes) (e : Err)
   | ok a => dsimp only at h; cases h
   | error x => dsimp only at h; injection h with h; exact h.symm
 
-/-- **tabix before the trailing count, for an index with at least one reference sequence: every cut is
-an error.** Whatever the header reader makes of a cut name block (`take(l_nm)` read to its end: a cut
-at a name boundary gives FEWER names, not an error), the first reference sequence needs four more
-bytes. -/
-theorem cutFailsOn_tabixHead (d : Bytes) (nRef : Nat) (h : Noodles.Index.Header) (refs : List Noodles.Index.RefLin)
-    (tail : Bytes) (hd : runPure tabixHead d = (.ok (nRef, h, refs), tail)) (hn : 0 < nRef) :
-    CutFailsOn EofOrInvalid tabixHead d := by
-  unfold tabixHead tabixWith at hd ⊢
-  refine cutFailsOn_bind d (cutFails_on (cutFails_mono isEof_sub (cutFails_magic _)) d) (fun _ d1 e1 => ?_)
-  refine cutFailsOn_bind d1 (cutFails_on (cutFails_mono isEof_sub cutFails_i32leNonneg) d1) (fun n d2 e2 => ?_)
-  -- `n` is the `n_ref` of `hd`
-  have hnn : n = nRef := by
-    rw [runPure_bind, e1] at hd
-    simp only at hd
-    rw [runPure_bind, e2] at hd
-    simp only at hd
-    rw [runPure_bind] at hd
-    rcases e3 : runPure (mapErrInvalid tabixHeader) d2 with ⟨r3, d3⟩
-    rw [e3] at hd
-    cases r3 with
-    | error x => dsimp only at hd; cases hd
-    | ok h3 =>
-      dsimp only at hd
-      rw [runPure_bind] at hd
-      rcases e4 : runPure (many (refLinear true) n) d3 with ⟨r4, d4⟩
-      rw [e4] at hd
-      cases r4 with
-      | error x => dsimp only at hd; cases hd
-      | ok x =>
-        simp only [runPure] at hd
-        injection hd with hd _
-        injection hd with hd
-        injection hd with hd _
-  subst hnn
-  obtain ⟨m, rfl⟩ : ∃ m, n = m + 1 := ⟨n - 1, by omega⟩
-  refine cutFails_on (cutFails_bind_starved ?_ (fun hh => ?_)) d2
-  · intro dd k hk hu
-    rcases er : (runPure (mapErrInvalid tabixHeader) (dd.take k)).1 with e | b
-    · exact Or.inl ⟨e, Or.inr (mapErrInvalid_error _ _ e er), rfl⟩
-    · exact Or.inr ⟨b, rfl, starved_bind_left _ (starved_many_succ (starved_refLinear true) m)⟩
-  · exact cutFails_bind (cutFails_many (cutFails_refLinear true) _) fun _ => cutFails_ret _ _
+/-- `read_reference_sequence_names` since /repo `fix:` 125ecd7: the names are read through
+`take(l_nm)` to its end and then the `Take` must have used up its limit — a cut inside the names block
+is `UnexpectedEof` (or `InvalidData`, when what is there does not parse: a last name without NUL, a
+repeated name).  Before the fix a cut at a name boundary gave FEWER names, not an error. -/
+theorem cutFails_names : CutFails EofOrInvalid names := by
+  unfold names
+  simp only [bind_eq, pure_eq]
+  refine cutFails_bind (cutFails_mono isEof_sub cutFails_i32leNonneg) (fun l => ?_)
+  refine strict_cutFails (Strict.upTo _ _ (fun bs h => ?_) (fun bs h => ?_))
+  · cases Noodles.Index.namesGo bs [] [] with
+    | error e => exact ⟨.invalidData, Or.inr rfl, rfl⟩
+    | ok ns => exact ⟨.eof, Or.inl rfl, by dsimp only; rw [if_pos h]; rfl⟩
+  · cases Noodles.Index.namesGo bs [] [] with
+    | error e => exact Strict.fail _
+    | ok ns => dsimp only; rw [if_neg (by omega)]; exact Strict.ret _
+
+theorem cutFails_column : CutFails IsEof column := by
+  unfold column
+  refine cutFails_bind cutFails_u32le (fun _ => ?_)
+  repeat' cut_step
+
+theorem cutFails_columnEnd (f : Noodles.Index.Format) (cb : Nat) : CutFails IsEof (columnEnd f cb) := by
+  unfold columnEnd
+  split
+  · refine cutFails_bind cutFails_u32le (fun _ => ?_)
+    repeat' cut_step
+  · refine cutFails_bind cutFails_column (fun _ => ?_)
+    repeat' cut_step
+
+/-- **the tabix header (noodles-csi `read_header`): every cut is an error** — also inside the names
+block (`cutFails_names`) -/
+theorem cutFails_tabixHeader : CutFails EofOrInvalid tabixHeader := by
+  unfold tabixHeader
+  simp only [bind_eq, pure_eq]
+  refine cutFails_bind (cutFails_mono isEof_sub cutFails_u32le) (fun fv => ?_)
+  split
+  · exact cutFails_fail _ _
+  · refine cutFails_bind (cutFails_mono isEof_sub cutFails_column) (fun cs => ?_)
+    refine cutFails_bind (cutFails_mono isEof_sub cutFails_column) (fun cb => ?_)
+    refine cutFails_bind (cutFails_mono isEof_sub (cutFails_columnEnd _ _)) (fun ce => ?_)
+    refine cutFails_bind (cutFails_mono isEof_sub cutFails_u32le) (fun m => ?_)
+    split
+    · exact cutFails_fail _ _
+    · refine cutFails_bind (cutFails_mono isEof_sub cutFails_i32leNonneg) (fun sk => ?_)
+      exact cutFails_bind cutFails_names fun _ => cutFails_ret _ _
+
+/-- **tabix before the trailing count: every cut is an error** — with or without reference sequences.
+(Before /repo `fix:` 125ecd7 this needed `0 < n_ref`: a names block cut at a name boundary was read as
+a shorter name list, and only the first reference sequence then failed for want of four bytes.) -/
+theorem cutFails_tabixHead : CutFails EofOrInvalid tabixHead := by
+  unfold tabixHead tabixWith
+  refine cutFails_bind (cutFails_mono isEof_sub (cutFails_magic _)) (fun _ => ?_)
+  refine cutFails_bind (cutFails_mono isEof_sub cutFails_i32leNonneg) (fun n => ?_)
+  refine cutFails_bind (cutFails_mono invalid_sub (cutFails_mapErrInvalid cutFails_tabixHeader)) (fun h => ?_)
+  exact cutFails_bind (cutFails_many (cutFails_refLinear true) _) fun _ => cutFails_ret _ _
 
 theorem cutFails_binsCsi (metaId n : Nat) (bins : Noodles.Index.Bins) (index : Noodles.Csi.Binned)
     (md : Option Noodles.Index.Meta) : CutFails EofOrInvalid (binsCsi metaId n bins index md) := by
@@ -708,11 +722,11 @@ theorem bai_cut (d : Bytes) (refs : List RefLin) (t : Bytes) (hd : runPure baiHe
   refine ⟨h.1, fun hge => ?_⟩
   rw [h.2 hge, runPure_unplaced_then]
 
-/-- **tabix (the uncompressed payload), every cut**, for an index with at least one reference
-sequence. Same shape as BAI; every error class the reader can report here is `UnexpectedEof` or
-`InvalidData`. -/
+/-- **tabix (the uncompressed payload), every cut** — with or without reference sequences (since
+/repo `fix:` 125ecd7 a cut names block is an error). Same shape as BAI; every error class the reader
+can report here is `UnexpectedEof` or `InvalidData`. -/
 theorem tabix_cut (d : Bytes) (nRef : Nat) (h : Header) (refs : List RefLin) (t : Bytes)
-    (hd : runPure tabixHead d = (.ok (nRef, h, refs), t)) (hn : 0 < nRef)
+    (hd : runPure tabixHead d = (.ok (nRef, h, refs), t))
     (k : Nat) (hk : k ≤ d.length) :
     (k < d.length - t.length → ∃ e, EofOrInvalid e ∧ runPure tabixReadIndex (d.take k) = (.error e, [])) ∧
     (d.length - t.length ≤ k → runPure tabixReadIndex (d.take k) =
@@ -726,7 +740,7 @@ theorem tabix_cut (d : Bytes) (nRef : Nat) (h : Header) (refs : List RefLin) (t 
       cases r with
       | error e => rfl
       | ok x => obtain ⟨a, b, c⟩ := x; rfl) d (nRef, h, refs) t hd
-    (cutFailsOn_tabixHead d nRef h refs t hd hn) k hk
+    (cutFails_on cutFails_tabixHead d) k hk
   refine ⟨hh.1, fun hge => ?_⟩
   rw [hh.2 hge, runPure_unplaced_then]
 
